@@ -71,6 +71,8 @@ type ringPair struct {
 	fl     *FrameLoop
 	ref    *refRing
 	nextID int
+	held   *cptvframe.Frame // the CopyRecent result of the previous check, and what it was
+	heldID int
 }
 
 func newRingPair(N int) *ringPair {
@@ -152,6 +154,15 @@ func (p *ringPair) check() (kind, detail string) {
 		if int(c2.Pix[0][0]) != r&0xffff {
 			return "recent-alias", "CopyRecent returned an alias of the ring slot"
 		}
+		// every call hands out a frame of its own: a copy kept by one caller (a D-Bus client
+		// being served, a test holding it) stays what it was, whatever is asked for later
+		if c2 == c {
+			return "recent-alias", "two CopyRecent calls returned the same frame object"
+		}
+		if p.held != nil && (p.held.Status.FrameCount != p.heldID || int(p.held.Pix[0][0]) != p.heldID&0xffff) {
+			return "recent-copy-changed-later", fmt.Sprintf("a copy taken earlier as frame %d now reads frame %d (pixel %d)", p.heldID, p.held.Status.FrameCount, p.held.Pix[0][0])
+		}
+		p.held, p.heldID = c2, r
 	}
 	if p.fl.Current().Status.FrameCount != p.ref.stamp[p.ref.n] {
 		return "current", "Current() is not the frame of this epoch"
